@@ -78,4 +78,23 @@ example :
     let tree : RNode := .box {} .quote [.text {} (strCh "aaaa bbbb")]
     ((renderTree {} d 8 tree).toOption.map fun ls => ls.map rlw) = some [7, 7] := by decide +kernel
 
+/-! ## compositionality under a custom decorator (instances of the C07 theorems, which quantify over every decorator) -/
+
+/-- **a custom quote prefix is put verbatim in front of every line of the content rendered at `width − display width`** -/
+theorem custom_quote_is_prefixed (f : DecoFam) (cfg : Cfg) (w w' : Nat) (kids : List RNode) (hfn : cfg.footnotes = false) (hw : w ≠ 0)
+    (hw' : SubR.widthMinus { width := w } cfg (dispW (Deco.ofFam f).quotePrefix)
+      ((sizeOf (Deco.ofFam f) cfg.minWrap (.box {} .quote kids)).minW - dispW (Deco.ofFam f).quotePrefix) = .ok w') (hw'0 : w' ≠ 0) :
+    renderTree cfg (Deco.ofFam f) w (.box {} .quote kids) =
+      (renderTree cfg (Deco.ofFam f) w' (.box {} .container kids)).map (zipPrefix [] (Deco.ofFam f).quotePrefix (Deco.ofFam f).quotePrefix) :=
+  C07.quote_is_prefixed_content cfg (Deco.ofFam f) w w' kids hfn hw hw' hw'0
+
+/-- **a custom bullet stands in front of each item's first line, blank indentation of its display width in front of the
+    later lines**, and the items are rendered at the width minus that display width -/
+theorem custom_list_is_its_items (f : DecoFam) (cfg : Cfg) (w w' : Nat) (kids : List RNode) (hfn : cfg.footnotes = false) (hw : w ≠ 0)
+    (hw' : SubR.widthMinus { width := w } cfg (dispW (Deco.ofFam f).ulPrefix)
+      ((sizeOf (Deco.ofFam f) cfg.minWrap (.box {} .ul kids)).minW - dispW (Deco.ofFam f).ulPrefix) = .ok w') (hw'0 : w' ≠ 0) :
+    renderTree cfg (Deco.ofFam f) w (.box {} .ul kids) =
+      itemLines cfg (Deco.ofFam f) w' (fun _ => (Deco.ofFam f).ulPrefix) (List.replicate (dispW (Deco.ofFam f).ulPrefix) spaceCh) 0 kids :=
+  C07.ul_is_its_items cfg (Deco.ofFam f) w w' kids hfn hw hw' hw'0
+
 end H2T.C16
